@@ -11,6 +11,10 @@
                        NewXConfig: mapstructure.Decode, defaults.Set (zero fields take the default),
                        Validate (repaired: blockInterval >= 1 in all three; before: no interval check,
                        [old_validate])
+     accept_id         config/chain/config.go ValidateDomainID, called by the three constructors before
+                       mapstructure.Decode (repaired: the raw id must be an integer in 0..255; before:
+                       mapstructure narrowed any non-negative number to the uint8 of
+                       GeneralChainConfig.Id - 257 -> 1, 1.5 -> 1 - [old_accept_id])
      parse_net         chains/substrate/config.go substrateNetwork int64 -> uint16 (repaired: range
                        check in Validate; before: silent wrap, [old_parse_net])
      calc_start        chains/util.go CalculateStartingBlock (big.Int.Mod panics on a zero modulus)
@@ -149,18 +153,46 @@ Definition duration_ok (text : string) (impl : option Z) : bool :=
 
 Inductive chain_kind := Evm | Sub | Btc.
 
+(* a JSON scalar.  Numbers: [JNum z] = the integer z; [JFrac n d] = the non-integral number n/d in
+   lowest terms (d >= 2; the runner writes binary fractions such as 3/2, which float64 holds exactly),
+   so that two numbers are equal iff their terms are equal *)
+Inductive jv := JNum (z : Z) | JStr (s : string) | JBool (b : bool) | JFrac (n : Z) (d : positive).
+
+(* The chain (domain) id.  On the wire a domain id is ONE BYTE (GeneralChainConfig.Id is a *uint8), so
+   a written id is representable iff it is an integer in 0..255.
+   repaired (config/chain ValidateDomainID before the decoding): exactly those are accepted, and as
+   themselves; the int 1 and the float 1.0 are the same number (one [JNum 1]); a string or a bool is
+   no number (mapstructure.Decode is not weakly typed: "unconvertible type"). *)
+Definition accept_id (v : jv) : option Z :=
+  match v with
+  | JNum z => if (0 <=? z) && (z <=? 255) then Some z else None
+  | _ => None
+  end.
+
+(* before the repair: mapstructure v1.4.2 decodeUint - a negative number is an error, any other number
+   is converted with uint64(x) (a fraction is truncated) and stored into the uint8 with SetUint, which
+   keeps the low byte *)
+Definition old_accept_id (v : jv) : option Z :=
+  match v with
+  | JNum z => if z <? 0 then None else Some (z mod 256)
+  | JFrac n d => if n <? 0 then None else Some ((n / Zpos d) mod 256)
+  | _ => None
+  end.
+
 (* What was written in the chain entry.  [req_missing]: one of the required fields of this chain kind
-   (id / endpoint / name / bridge / username / password) is absent.  The numeric fields are absent
-   (None) or written (Some v). *)
+   (id / endpoint / name / bridge / username / password) is absent.  [ci_id]: the id as written (not
+   looked at when the id is the missing field).  The numeric fields are absent (None) or written
+   (Some v). *)
 Record chain_in := mkChainIn {
   ci_kind : chain_kind;
   ci_req_missing : bool;
+  ci_id : jv;
   ci_interval : option Z;
   ci_confs : option Z;
   ci_start : option Z
 }.
 
-Record chain_cfg := mkChainCfg { cc_interval : Z; cc_confs : Z; cc_start : Z }.
+Record chain_cfg := mkChainCfg { cc_id : Z; cc_interval : Z; cc_confs : Z; cc_start : Z }.
 
 Definition uses_confs (k : chain_kind) : bool := match k with Sub => false | _ => true end.
 
@@ -176,22 +208,27 @@ Definition with_default (d : Z) (o : option Z) : Z :=
 
 Definition written (o : option Z) : Z := match o with Some v => v | None => 0 end.
 
-(* repaired constructors *)
-Definition validate (c : chain_in) : option chain_cfg :=
+(* the constructors, with the treatment of the id [acc] and whether the interval is checked *)
+Definition validate_with (acc : jv -> option Z) (check_interval : bool) (c : chain_in) : option chain_cfg :=
   if ci_req_missing c then None else
-  let i := with_default default_interval (ci_interval c) in
-  let n := if uses_confs (ci_kind c) then with_default default_confs (ci_confs c) else 0 in
-  if uses_confs (ci_kind c) && (n <? 1) then None
-  else if i <? 1 then None
-  else Some (mkChainCfg i n (written (ci_start c))).
+  match acc (ci_id c) with
+  | None => None
+  | Some id =>
+      let i := with_default default_interval (ci_interval c) in
+      let n := if uses_confs (ci_kind c) then with_default default_confs (ci_confs c) else 0 in
+      if uses_confs (ci_kind c) && (n <? 1) then None
+      else if check_interval && (i <? 1) then None
+      else Some (mkChainCfg id i n (written (ci_start c)))
+  end.
 
-(* before the repair: the interval is not checked *)
-Definition old_validate (c : chain_in) : option chain_cfg :=
-  if ci_req_missing c then None else
-  let i := with_default default_interval (ci_interval c) in
-  let n := if uses_confs (ci_kind c) then with_default default_confs (ci_confs c) else 0 in
-  if uses_confs (ci_kind c) && (n <? 1) then None
-  else Some (mkChainCfg i n (written (ci_start c))).
+(* repaired constructors *)
+Definition validate : chain_in -> option chain_cfg := validate_with accept_id true.
+
+(* before the id repair (interval checked, id narrowed) *)
+Definition old_id_validate : chain_in -> option chain_cfg := validate_with old_accept_id true.
+
+(* before the interval repair: the interval is not checked (and the id is narrowed) *)
+Definition old_validate : chain_in -> option chain_cfg := validate_with old_accept_id false.
 
 (* CalculateStartingBlock: big.Int.Mod is the Euclidean modulus and panics on a zero modulus *)
 Inductive calc := Val (z : Z) | Panic.
@@ -211,20 +248,36 @@ Definition field_ok (o : option Z) (got : Z) : bool :=
   | None => 1 <=? got                                      (* defaults are positive *)
   end.
 
+(* the id of an accepted configuration: a written NUMBER comes back as itself and is a domain id
+   (an integer in 0..255) - so an id outside 0..255 or a non-integral id must not be accepted; on an id
+   written as a string / bool the property has no opinion *)
+Definition id_ok (v : jv) (got : Z) : bool :=
+  match v with
+  | JNum z => (0 <=? z) && (z <=? 255) && (got =? z)
+  | JFrac _ _ => false
+  | JStr _ | JBool _ => true
+  end.
+
+(* the written id is a domain id; anything else is a reason to reject *)
+Definition id_representable (v : jv) : bool :=
+  match v with JNum z => (0 <=? z) && (z <=? 255) | _ => false end.
+
 (* Specification:
-   accepted -> interval >= 1, confirmations >= 1 (EVM, BTC), every written non-zero value comes back
-               unchanged, the start block is the written one, and the start-block computation did
-               not panic;
-   rejected -> not (all required fields present and every numeric setting positive or absent). *)
+   accepted -> the id is the written id and lies in 0..255, interval >= 1, confirmations >= 1 (EVM,
+               BTC), every written non-zero value comes back unchanged, the start block is the written
+               one, and the start-block computation did not panic;
+   rejected -> not (all required fields present, the id a domain id, and every numeric setting positive
+               or absent). *)
 Definition chain_ok (c : chain_in) (o : chain_obs) : bool :=
   match o with
   | Some (cfg, r) =>
-      (1 <=? cc_interval cfg) && field_ok (ci_interval c) (cc_interval cfg)
+      id_ok (ci_id c) (cc_id cfg)
+      && (1 <=? cc_interval cfg) && field_ok (ci_interval c) (cc_interval cfg)
       && (if uses_confs (ci_kind c) then (1 <=? cc_confs cfg) && field_ok (ci_confs c) (cc_confs cfg) else true)
       && (cc_start cfg =? written (ci_start c))
       && match r with Val _ => true | Panic => false end
   | None =>
-      negb (negb (ci_req_missing c) && positive_or_absent (ci_interval c)
+      negb (negb (ci_req_missing c) && id_representable (ci_id c) && positive_or_absent (ci_interval c)
             && (if uses_confs (ci_kind c) then positive_or_absent (ci_confs c) else true))
   end.
 
@@ -236,9 +289,9 @@ Definition use_chain (cfg : chain_cfg) (n : nat) : chain_cfg * list calc :=
   (cfg, repeat (calc_start (cc_start cfg) (cc_interval cfg)) n).
 
 Definition chain_cfg_eqb (a b : chain_cfg) : bool :=
-  (cc_interval a =? cc_interval b) && (cc_confs a =? cc_confs b) && (cc_start a =? cc_start b).
+  (cc_id a =? cc_id b) && (cc_interval a =? cc_interval b) && (cc_confs a =? cc_confs b) && (cc_start a =? cc_start b).
 
-(* what the runner saw after using an accepted configuration: the three numeric settings read again,
+(* what the runner saw after using an accepted configuration: the id and the three numeric settings read again,
    whether EVERY OTHER field of the config object (deep comparison by value with a snapshot taken right
    after loading) is unchanged, and the results of the start-block computations run after the first *)
 Record chain_after := mkAfter { ca_cfg : chain_cfg; ca_rest_same : bool; ca_calcs : list calc }.
@@ -272,6 +325,12 @@ Definition old_model_chain (c : chain_in) : chain_obs :=
   | None => None
   end.
 
+Definition old_id_model_chain (c : chain_in) : chain_obs :=
+  match old_id_validate c with
+  | Some cfg => Some (cfg, calc_start (cc_start cfg) (cc_interval cfg))
+  | None => None
+  end.
+
 (* ---------------------------------------------------------------------------------------------- *)
 (* substrateNetwork (chains/substrate/config.go): decoded as int64, stored as uint16.
    repaired: Validate rejects values outside 0..65535; before: uint16(v) wrapped silently. *)
@@ -291,11 +350,7 @@ Definition net_ok (v : Z) (impl : option Z) : bool :=
 (* ---------------------------------------------------------------------------------------------- *)
 (* Local-over-shared merge *)
 
-(* a JSON scalar.  Numbers: [JNum z] = the integer z; [JFrac n d] = the non-integral number n/d in
-   lowest terms (d >= 2; the runner writes binary fractions such as 3/2, which float64 holds exactly),
-   so that two numbers are equal iff their terms are equal *)
-Inductive jv := JNum (z : Z) | JStr (s : string) | JBool (b : bool) | JFrac (n : Z) (d : positive).
-
+(* the JSON scalars [jv] are defined above (chain ids) *)
 Definition jv_eqb (a b : jv) : bool :=
   match a, b with
   | JNum x, JNum y => x =? y
